@@ -20,6 +20,7 @@ VARIANTS = {
     "A": "var_a",
     "B": "var_b",
     "C": "var_c",
+    "D": "var_d",
 }
 
 
@@ -74,7 +75,7 @@ def build(variant, pkg, verbose=False):
 
 def build_all(verbose=False):
     ok = True
-    for variant, pkg in [("A", "units"), ("A", "gcsim"), ("B", "gcsim"), ("C", "gcsim")]:
+    for variant, pkg in [("A", "units"), ("A", "gcsim"), ("B", "gcsim"), ("C", "gcsim"), ("D", "gcsim")]:
         if not os.path.isdir(os.path.join(HARNESS, pkg)):
             continue
         ok = build(variant, pkg, verbose) and ok
